@@ -362,8 +362,14 @@ fn inv_clauses(font: &Font) -> Vec<String> {
     if layers.first().map(|l| l.path() == Path::new("glyphs")) != Some(true) {
         bad.push("the first layer is not the default layer".into());
     }
-    if font.layers.default_layer().path() != Path::new("glyphs") {
-        bad.push("default_layer() is not in 'glyphs'".into());
+    if layers.is_empty() {
+        bad.push("the font has no layer at all".into());
+        return bad;
+    }
+    match catch(|| font.layers.default_layer().path() == Path::new("glyphs")) {
+        Ok(true) => {}
+        Ok(false) => bad.push("default_layer() is not in 'glyphs'".into()),
+        Err(_) => bad.push("default_layer() panics".into()),
     }
     for (i, l) in layers.iter().enumerate() {
         if i > 0 && l.name().as_str() == "public.default" {
@@ -542,6 +548,12 @@ impl Hist {
         self.fail(sink, bad, &t);
         (code, after_dump)
     }
+    /// the clauses that speak about a state, on the start state (matters for loaded fonts)
+    pub fn check_start(&self, sink: &mut Sink) {
+        let mut bad: Vec<String> = inv_clauses(&self.font).into_iter().map(|c| format!("C06: {}", c)).collect();
+        bad.extend(distinct_clauses(&self.font).into_iter().map(|c| format!("C07: {}", c)));
+        self.fail(sink, bad, "(start)");
+    }
     /// end of a history: saving and loading yields exactly what the containers report
     pub fn final_check(&self, tmp: &Path, sink: &mut Sink) {
         sink.saveloads += 1;
@@ -694,20 +706,18 @@ fn glyph_alphabet_small() -> Vec<Op> {
         RenameGlyph(l, 2, 1, true),
         ClearLayer(l),
         RetainGlyphs(l, vec![2]),
-        SaveLoad,
     ]
 }
 fn glyph_alphabet_wide() -> Vec<Op> {
     let l = PD;
     let mut v = glyph_alphabet_small();
     v.extend(vec![
-        RemoveGlyph(l, 0),
+        SaveLoad,
         RenameGlyph(l, 1, 1, true),
         RenameGlyph(l, 0, 1, false),
         RenameGlyph(l, 0, 12, false),
         RenameGlyph(l, 1, 13, true),
         RenameGlyph(l, 12, 0, false),
-        RenameGlyph(l, 1, 0, true),
         RetainGlyphs(l, vec![]),
         RetainGlyphs(l, vec![1, 0]),
         EntryOrInsert(l, 2, 2),
@@ -731,26 +741,23 @@ fn layer_alphabet_small() -> Vec<Op> {
         RenameLayer(2, 1, true),
         RenameLayer(PD, 0, false),
         RenameLayer(1, PD, true),
-        SaveLoad,
     ]
 }
 fn layer_alphabet_wide() -> Vec<Op> {
     let mut v = layer_alphabet_small();
     v.extend(vec![
+        SaveLoad,
         GetOrCreateLayer(1),
-        GetOrCreateLayer(PD),
         NewLayer(PD),
         NewLayer(12),
         NewLayer(13),
         RemoveLayer(PD),
-        RemoveLayer(0),
         RenameLayer(1, 1, true),
         RenameLayer(1, PD, false),
         RenameLayer(0, PD, true),
         RenameLayer(1, 0, true),
         RenameLayer(1, 12, false),
         RenameLayer(3, 1, false),
-        RetainLayers(vec![2]),
         RetainLayers(vec![]),
         RemoveEmptyLayers,
         InsertGlyph(1, 0),
@@ -839,15 +846,19 @@ pub fn main(a: &Args) {
     let mut specs = vec![
         TrieSpec { id: "G", start: 0, alphabet: glyph_alphabet_small(), depth: deep, split: 2 },
         TrieSpec { id: "L", start: 0, alphabet: layer_alphabet_small(), depth: deep, split: 2 },
-        TrieSpec { id: "Gw", start: 0, alphabet: glyph_alphabet_wide(), depth: deep - 1, split: 1 },
-        TrieSpec { id: "Lw", start: 0, alphabet: layer_alphabet_wide(), depth: deep - 1, split: 1 },
+        TrieSpec { id: "Gw", start: 0, alphabet: glyph_alphabet_wide(), depth: 3, split: 1 },
+        TrieSpec { id: "Lw", start: 0, alphabet: layer_alphabet_wide(), depth: 3, split: 1 },
     ];
     for s in 0..STARTS.len() {
         let ids = ["M0", "M1", "M2", "M3", "M4", "M5", "M6", "M7", "M8", "M9"];
-        specs.push(TrieSpec { id: ids[s], start: s, alphabet: mixed_alphabet(), depth: if s < 4 { 2 } else { 1 }, split: 0 });
+        specs.push(TrieSpec { id: ids[s], start: s, alphabet: mixed_alphabet(), depth: if s < 4 { 2 } else { 1 }, split: if s < 4 { 1 } else { 0 } });
     }
     if light {
-        specs.retain(|s| s.id == "M0" || s.id == "M1");
+        // C07's container part: well-formed starts, no raw entry access (those belong to C06)
+        specs.retain(|s| s.id == "M0" || s.id == "M1" || s.id == "M2");
+        for s in specs.iter_mut() {
+            s.alphabet.retain(|o| !matches!(o, EntryOrInsert(..) | EntryRemove(..)));
+        }
     }
     let mut nodes = 0u64;
     for spec in &specs {
@@ -856,6 +867,7 @@ pub fn main(a: &Args) {
             Some(h) => h,
             None => continue,
         };
+        root.check_start(&mut sink);
         let alpha_text: String = spec.alphabet.iter().map(op_text).collect();
         // the top of the trie (depth = split) and one shard per prefix of length `split`
         let mut prefixes: Vec<Vec<usize>> = vec![vec![]];
@@ -894,29 +906,34 @@ pub fn main(a: &Args) {
             write_file(&a.out.join(format!("{}.txt", sid)), &lines);
             write_file(&a.out.join(format!("{}.idx", sid)), &idx);
             shards.push(serde_json::json!({"id": sid, "kind": "trie", "start": start, "alphabet": alpha_text, "prefix": prefix_text,
-                "depth": depth, "nodes": n, "weight": lines.len() + 40 * n}));
+                "state0": d0, "depth": depth, "nodes": n, "weight": lines.len() + 40 * n}));
         }
     }
     // random histories
-    let nrand = if a.thorough() { 20_000 } else if light { 300 } else { 700 };
+    let nrand = if a.thorough() { 6_000 } else if light { 250 } else { 400 };
     let per = 40usize;
     let mut text = String::new();
     let mut in_shard = 0usize;
     let mut shard_no = 0usize;
     let mut hist_steps = 0u64;
     for i in 0..nrand {
-        let si = if i % 3 == 0 { 0 } else { rng.below(STARTS.len() as u64) as usize };
+        let si = if i % 3 == 0 { 0 } else { rng.below(if light { 4 } else { STARTS.len() as u64 }) as usize };
         let (start, wf) = STARTS[si];
         let mut h = match new_hist(start, wf, &tmp) {
             Some(h) => h,
             None => continue,
         };
         let len = rng.range(1, 40) as usize;
-        let mut obs: Vec<String> = Vec::new();
         let mut prev = dump(&h.font);
+        let mut obs: Vec<String> = vec![prev.clone()];
         let mut panicked = false;
         for _ in 0..len {
-            let op = random_op(&mut rng);
+            let mut op = random_op(&mut rng);
+            if light {
+                if let EntryOrInsert(l, ..) | EntryRemove(l, _) = op {
+                    op = TouchGlyphs(l);
+                }
+            }
             let (code, d) = h.step(&op, &tmp, &mut sink);
             obs.push(format!("{}|{}", code, if d == prev { "=" } else { d.as_str() }));
             prev = d;
@@ -998,6 +1015,7 @@ fn replay(p: &Path, out: &Path) {
     println!("names: {:?}", NAMES.iter().enumerate().map(|(i, n)| format!("{}={:?}", ic(i), n)).collect::<Vec<_>>());
     println!("start: {}   state: {}", start, dump(&h.font));
     let mut sink = Sink::default();
+    h.check_start(&mut sink);
     for op in &ops {
         let (code, d) = h.step(op, &tmp, &mut sink);
         println!("{:?} -> {}   state: {}", op, code, d);
